@@ -97,9 +97,20 @@ def run_case(job):
     try:
         with quiet():
             mixed = elem.endswith("+mixed")  # a recombined mesh that keeps some triangles: two element groups of the main dimension
-            if mixed:
+            assembly = elem.endswith("+assembly")  # the pentagon and its mirror image through the plane x = 0, merged: one group holds elements of both orientations
+            if mixed or assembly:
                 elem = elem.split("+")[0]
-            mesh = base_mesh(dim, elem, mixed).copy()
+            if assembly:
+                from EasyFEA.FEM import Mesh
+
+                part = base_mesh(dim, elem, False).copy()
+                other = part.copy()
+                other.Symmetry((0, 0, 0), (1, 0, 0))
+                mesh = Mesh.Merge([part, other])
+                if mesh.Nn >= 2 * part.Nn:
+                    raise RuntimeError("harness: the two halves of the assembly were not joined")
+            else:
+                mesh = base_mesh(dim, elem, mixed).copy()
             if mixed and len(mesh.Get_list_groupElem(dim)) < 2:
                 raise RuntimeError("harness: the mixed mesh has a single element group")
             X0 = mesh.coord.copy()
@@ -118,14 +129,14 @@ def run_case(job):
         if np.abs(X - Xe).max() > 1e-12 * max(1.0, np.abs(Xe).max()):
             viol.append((f"coordinates/{key}", f"{key}: node coordinates after the motions differ from the exact affine map (max {np.abs(X - Xe).max():.3g})", {"frame": frame, "elem": elem}))
             return {"viol": viol, "n": 1, "keys": [], "traces": 1}
-        meas = 15.0 if dim == 2 else 30.0
+        meas = (15.0 if dim == 2 else 30.0) * (2 if assembly else 1)
         got = mesh.area if dim == 2 else mesh.volume
         # the measure is a sum of products of coordinate DIFFERENCES: far from the origin each difference loses digits in proportion
         # to |x| / h, so the comparison is relative to the size of the coordinates (1e-11 near the origin, 1e-10 at |x| = 1e5)
         if abs(got - meas) > (1e-11 + 1e-15 * np.abs(X).max()) * meas:
             viol.append((f"measure/{key}", f"{key}: measure {got} after the motions, exact {meas}", {"frame": frame, "elem": elem}))
         inplane = abs(A[2, 2] - 1) < 1e-15 and abs(b[2]) < 1e-15 and np.abs(A[2, :2]).max() < 1e-15 and np.abs(A[:2, 2]).max() < 1e-15
-        if dim == 3 or inplane:
+        if (dim == 3 or inplane) and not assembly:   # (a merged mesh keeps the welded interface in its boundary groups: no closed-surface statement)
             from EasyFEA.FEM import MatrixType
 
             nsum = np.zeros(3)
@@ -191,8 +202,8 @@ def run_case(job):
 def run(ctx):
     res = ctx.tlc_must_hold("Geometry", f"Geometry_{'thorough' if ctx.thorough else 'quick'}.cfg", what="Isometry / Parity", workers=8)
     frames = res.prints.get("FRAME", [])
-    e2 = ["TRI3", "TRI6", "QUAD4", "QUAD9", "QUAD4+mixed"] + (["TRI10", "TRI15", "QUAD8", "QUAD9+mixed"] if ctx.thorough else [])
-    e3 = ["TETRA4", "HEXA8", "PRISM6"] + (["TETRA10", "HEXA20", "HEXA27", "PRISM15", "PRISM18"] if ctx.thorough else [])
+    e2 = ["TRI3", "TRI6", "QUAD4", "QUAD9", "QUAD4+mixed", "TRI3+assembly"] + (["TRI10", "TRI15", "QUAD8", "QUAD9+mixed", "QUAD4+assembly"] if ctx.thorough else [])
+    e3 = ["TETRA4", "HEXA8", "PRISM6", "TETRA4+assembly", "HEXA8+assembly"] + (["TETRA10", "HEXA20", "HEXA27", "PRISM15", "PRISM18", "PRISM6+assembly"] if ctx.thorough else [])
     jobs = [(i, f, 2, e) for i, f in enumerate(frames) for e in e2] + [(i, f, 3, e) for i, f in enumerate(frames) for e in e3]
     # GeometryViews.tla: histories of motions and VIEWS (queries in a moved configuration through `displacementMatrix`)
     resv = ctx.tlc_must_hold("GeometryViews", "GeometryViews.cfg", what="PureView / FrameIsFoldOfMoves / Isometry / Parity", workers=4)
